@@ -3,62 +3,61 @@
 package c02synccrash
 
 import (
-	"fmt"
 	"math/rand"
-	"runtime/debug"
 	"testing"
 
 	"verifharness/internal/chainkit"
-
-	"github.com/nspcc-dev/neo-go/pkg/core/mpt"
-	"github.com/nspcc-dev/neo-go/pkg/core/storage"
-	"github.com/nspcc-dev/neo-go/pkg/util"
 )
 
+// TestProbe is the scripted scenario of the two defects this extension found in the tree it was built on (repaired by
+// 847be2f and 8af99ad): (1) the node is stopped (a clean stop is enough) and started again when the restored trie holds a branch with one
+// child in several slots - Module.Init used to panic "failed to get MPT node from the pool"; (2) the node dies between the
+// batch that stores the last window block and the first batch of the jump - on restart the module used to declare
+// itself finished at height 0. Both must end at the sync point with the source's state.
 func TestProbe(t *testing.T) {
 	w := &world{t: t, id: 0, net: chainkit.NewNet(5, 3), ssi: 4, mtb: 8}
 	if err := w.build(21, 104729, 0); err != nil {
 		t.Fatal(err)
 	}
-	// branches with two equal children
-	twins := 0
-	for h, nb := range w.nodes {
-		n := decodeNode(nb)
-		if _, ok := n.(*mpt.BranchNode); ok {
-			for ch, ps := range mpt.GetChildrenPaths([]byte{}, n) {
-				if len(ps) > 1 {
-					twins++
-					fmt.Printf("branch %s has child %s in %d slots\n", h.StringLE()[:8], ch.StringLE()[:8], len(ps))
-				}
-			}
+	defer w.src.Close()
+	if w.twins == 0 {
+		t.Fatalf("the scripted world has no branch with one child in several slots")
+	}
+	// the database right after the PersistSync that completes the trie (what a clean stop in the blocks stage leaves, too)
+	// and right after the one that completes the blocks
+	ref := w.life(nil, true, w.N, nil, rand.New(rand.NewSource(1)), 0, false)
+	if !ref.completed {
+		t.Fatalf("uninterrupted synchronisation failed: %v %v %v", ref.refuse, ref.stuck, ref.pan)
+	}
+	img := Disk{}
+	at := map[string]Disk{}
+	before := w.project(img)
+	for _, b := range ref.batches {
+		img.Apply(b)
+		f := w.project(img)
+		c := class(before, f, int(w.P))
+		if _, seen := at[c]; !seen {
+			at[c] = img.Clone()
+		}
+		before = f
+	}
+	for _, c := range []string{"mpt-complete", "blocks-complete"} {
+		d, ok := at[c]
+		if !ok {
+			t.Fatalf("no batch of class %s recorded", c)
+		}
+		if c == "mpt-complete" && !w.project(d).Trap {
+			t.Fatalf("the complete trie does not have the shape the scenario is about")
+		}
+		o := w.life(d, false, w.N, nil, rand.New(rand.NewSource(2)), 0, true)
+		if o.openErr != "" || o.initErr != "" || o.pan != "" {
+			t.Fatalf("restart after %s: open %q init %q panic %q", c, o.openErr, o.initErr, o.pan)
+		}
+		if !o.completed || !o.v.rootOK || !o.v.storeOK || o.v.height != w.P {
+			t.Fatalf("restart after %s: completed=%v (%s) root=%v storage=%v height=%d (sync point %d)", c, o.completed, o.stuck, o.v.rootOK, o.v.storeOK, o.v.height, w.P)
+		}
+		if c == "blocks-complete" && (o.stage0 != "done" || o.height0 != w.P) {
+			t.Fatalf("restart after %s: stage %s at height %d, expected the jump to be carried out by Init", c, o.stage0, o.height0)
 		}
 	}
-	fmt.Println("twins:", twins, "nodes", len(w.nodes), "occ", w.nocc)
-	s := &sink{w: w, r: rand.New(rand.NewSource(1)), mem: storage.NewMemoryStore()}
-	s.rec = NewRecStore(s.mem)
-	fmt.Println(s.boot(w.N))
-	s.advance("blocks")
-	fmt.Println("phase", s.phase(), s.ok(), s.refuse, s.pan, "hh", s.bc.HeaderHeight())
-	s.close() // clean stop
-	s2 := &sink{w: w, r: rand.New(rand.NewSource(1)), mem: s.mem}
-	func() {
-		defer func() {
-			if r := recover(); r != nil {
-				fmt.Println("PANIC", r)
-				debug.PrintStack()
-			}
-		}()
-		var err error
-		s2.bc, err = w.newSink(NewRecStore(s2.mem))
-		if err != nil {
-			t.Fatal(err)
-		}
-		chainkit.Start(s2.bc)
-		s2.mod = s2.bc.GetStateSyncModule()
-		fmt.Println("hh", s2.bc.HeaderHeight(), "bh", s2.bc.BlockHeight())
-		fmt.Println("init:", s2.mod.Init(w.N))
-		fmt.Println("sp", s2.mod.GetStateSyncPoint(), "active", s2.mod.IsActive(), "needH", s2.mod.NeedHeaders())
-		fmt.Println("phase after clean restart:", s2.phase())
-	}()
-	_ = util.Uint256{}
 }
